@@ -824,30 +824,34 @@ Proof.
   apply (callable_batched _ (fun x => [f1 x]) 1); try assumption. intros. apply callable_1d; assumption.
 Qed.
 
-(* ---------- the container of the inputs: explainers (tf tensors) are fine for every batch size; metrics (NumPy arrays)
-   are fine with a batch size and fail with batch_size=None on callables / predict_proba objects ---------- *)
+(* ---------- the container of the inputs.  Current code: right for explainers (tf tensors) and metrics (NumPy arrays), every
+   batch size.  Code as found: metrics failed with batch_size=None on callables / predict_proba objects ---------- *)
 Lemma callable_container_ok k (f : list Qc -> list Qc) K bs inputs targets :
   1 <= length inputs -> targets_ok K inputs targets -> (forall x, length (f x) = K) -> bs_ok bs ->
-  (k = TfTensor \/ bs <> None) ->
   batch_one_hot_callable_on k (model_2d f) bs inputs targets = Some (keras_scores f inputs targets).
 Proof.
-  intros Hn Ht Hf Hbs Hk. destruct (callable_equals_keras f K bs inputs targets Hn Ht Hf Hbs) as [H2 _].
-  destruct bs as [b|]; cbn [batch_one_hot_callable_on]; [exact H2|].
-  destruct Hk as [->|Hk]; [exact H2 | congruence].
+  intros Hn Ht Hf Hbs. destruct (callable_equals_keras f K bs inputs targets Hn Ht Hf Hbs) as [H2 _].
+  destruct bs as [b|]; cbn [batch_one_hot_callable_on]; exact H2.
 Qed.
 
-Lemma metric_callable_bs_none_fails model inputs targets :
-  batch_one_hot_callable_on metric_container model None inputs targets = None.
-Proof. reflexivity. Qed.
+Lemma callable_container_orig_ok k (f : list Qc -> list Qc) K bs inputs targets :
+  1 <= length inputs -> targets_ok K inputs targets -> (forall x, length (f x) = K) -> bs_ok bs ->
+  (k = TfTensor \/ bs <> None) ->
+  batch_one_hot_callable_on_orig k (model_2d f) bs inputs targets = Some (keras_scores f inputs targets).
+Proof.
+  intros Hn Ht Hf Hbs Hk. destruct (callable_equals_keras f K bs inputs targets Hn Ht Hf Hbs) as [H2 _].
+  destruct bs as [b|]; cbn [batch_one_hot_callable_on_orig]; [exact H2|].
+  destruct Hk as [->|Hk]; [exact H2 | congruence].
+Qed.
 
 Lemma metric_callable_bs_none_refuted :
   exists (f : list Qc -> list Qc) inputs targets,
     1 <= length inputs /\ targets_ok 1 inputs targets /\ (forall x, length (f x) = 1) /\
-    batch_one_hot_callable_on explainer_container (model_2d f) None inputs targets = Some (keras_scores f inputs targets) /\
-    batch_one_hot_callable_on metric_container (model_2d f) (Some 1) inputs targets = Some (keras_scores f inputs targets) /\
-    batch_one_hot_callable_on metric_container (model_2d f) None inputs targets <> Some (keras_scores f inputs targets).
+    batch_one_hot_callable_on_orig explainer_container (model_2d f) None inputs targets = Some (keras_scores f inputs targets) /\
+    batch_one_hot_callable_on_orig metric_container (model_2d f) (Some 1) inputs targets = Some (keras_scores f inputs targets) /\
+    batch_one_hot_callable_on_orig metric_container (model_2d f) None inputs targets = None.
 Proof.
   exists (fun x => [nthq x 0]), [[q 1 2]], [[q 2 1]].
   split; [cbn; lia|]. split; [split; [reflexivity | intros t [<-|[]]; reflexivity]|]. split; [reflexivity|].
-  split; [vm_compute; reflexivity|]. split; [vm_compute; reflexivity|]. discriminate.
+  split; [vm_compute; reflexivity|]. split; [vm_compute; reflexivity|]. reflexivity.
 Qed.
